@@ -1,56 +1,14 @@
-(* C02 -- instantiation of the flat index models at SF.Value.val, and the comparison functions the
-   correspondence cases call.  MODELS ONLY.
-
-   canon: the canonical representative of a label under Python equality/hash
-   (True == 1 == 1.0, (1, 2) == (1.0, 2.0)); NaN labels are outside C02.  Floats arrive as exact
-   num/den in lowest terms (float.as_integer_ratio), so an integral float has den = 1. *)
+(* C02 -- the flat index MODELS at SF.Value.val: comparison functions the correspondence cases call
+   for M (the specification side is SF.IndexBijSpecVal).  MODELS ONLY. *)
 Require Import SF.Prelude SF.Value SF.PySlice SF.IndexBij.
-
-Fixpoint canon (v : val) : val :=
-  match v with
-  | VBool b => VInt (if b then 1 else 0)
-  | VFlt n d => if d =? 1 then VInt n else VFlt n d
-  | VTup l => VTup (map canon l)
-  | _ => v
-  end.
-
-Definition vclass (v : val) : kclass :=
-  match v with VInt _ => KInt | VBool _ => KBool | VNone => KNone | _ => KOther end.
-
-Definition vto_Z (v : val) : option Z := match v with VInt z => Some z | _ => None end.
-
-Definition vkey (v : val) : key val := (canon v, vclass v).
-
-Notation vobs := (obs val).
-
-Definition res_unit_eqb (a b : res unit) : bool :=
-  match a, b with Ok _, Ok _ => true | Err x, Err y => String.eqb x y | _, _ => false end.
-
-Definition obs_eqb (a b : vobs) : bool :=
-  vlist_eqb (o_values a) (o_values b) && vlist_eqb (o_iter a) (o_iter b) &&
-  vlist_eqb (o_rev a) (o_rev b) && (o_len a =? o_len b) &&
-  list_eqb Z.eqb (o_pos a) (o_pos b) && vlist_eqb (o_at a) (o_at b) &&
-  list_eqb (res_eqb Z.eqb) (o_lookup a) (o_lookup b) &&
-  list_eqb Bool.eqb (o_contains a) (o_contains b).
-
-(* an observation as printed by the harness (raw values) -> canonical *)
-Definition obs_canon (o : vobs) : vobs :=
-  mk_obs (map canon (o_values o)) (map canon (o_iter o)) (map canon (o_rev o)) (o_len o) (o_pos o)
-         (map canon (o_at o)) (o_lookup o) (o_contains o).
-
-Definition robs_eqb (a b : res vobs) : bool := res_eqb obs_eqb a b.
-Definition robs_canon (r : res vobs) : res vobs := res_map obs_canon r.
+Require Export SF.IndexBijSpecVal.
 
 (* ---- entry points used by tools/sfv/props/c02.py (labels / probes are raw observed values) ---- *)
 Definition vM_index (labels probes : list val) : res vobs :=
   M_index val_eqb vto_Z (map canon labels) (map vkey probes).
-Definition vS_index (labels probes : list val) : res vobs :=
-  S_index val_eqb (map canon labels) (map vkey probes).
 
 Definition chk_M_index labels probes (observed : res vobs) : bool :=
   robs_eqb (vM_index labels probes) (robs_canon observed).
-Definition chk_S_index labels probes (observed : res vobs) : bool :=
-  robs_eqb (vS_index labels probes) (robs_canon observed).
 
 (* Index(labels, dtype=d): raw = labels as given, cast = np.array(labels, dtype=d) *)
 Definition chk_M_index_dtype raw cast probes (observed : res vobs) : bool :=
@@ -58,8 +16,6 @@ Definition chk_M_index_dtype raw cast probes (observed : res vobs) : bool :=
 
 Definition chk_M_auto (n : Z) probes (observed : vobs) : bool :=
   obs_eqb (M_auto val_eqb VInt vto_Z (Z.to_nat n) (map vkey probes)) (obs_canon observed).
-Definition chk_S_auto (n : Z) probes (observed : vobs) : bool :=
-  obs_eqb (S_auto val_eqb VInt (Z.to_nat n) (map vkey probes)) (obs_canon observed).
 
 (* list / slice keys *)
 Definition chk_M_list labels (ks : list val) (observed : res (list Z)) : bool :=
@@ -67,8 +23,6 @@ Definition chk_M_list labels (ks : list val) (observed : res (list Z)) : bool :=
   | Ok ix => res_eqb (list_eqb Z.eqb) (M_loc_to_iloc_list val_eqb vto_Z ix (map vkey ks)) observed
   | Err _ => false
   end.
-Definition chk_S_list labels (ks : list val) (observed : res (list Z)) : bool :=
-  res_eqb (list_eqb Z.eqb) (S_lookup_list val_eqb (map canon labels) (map vkey ks)) observed.
 
 Definition chk_M_slice labels (a b : option val) (st : option Z) (observed : res slice) : bool :=
   match M_index_init val_eqb (map canon labels) with
@@ -76,28 +30,11 @@ Definition chk_M_slice labels (a b : option val) (st : option Z) (observed : res
       res_eqb slice_eqb (M_loc_to_iloc_slice val_eqb m (option_map vkey a) (option_map vkey b) st) observed
   | _ => false
   end.
-Definition chk_S_slice labels (a b : option val) (st : option Z) (observed : res slice) : bool :=
-  res_eqb slice_eqb (S_lookup_slice val_eqb (map canon labels) (option_map vkey a) (option_map vkey b) st) observed.
-
-(* grow-only histories.  init: inl labels (IndexGO(labels)) or inr n (auto-integer IndexGO) *)
-Inductive vop := VAppend (v : val) | VExtend (vs : list val) | VTouch.
-Definition vop_op (o : vop) : op val :=
-  match o with
-  | VAppend v => OpAppend (vkey v)
-  | VExtend vs => OpExtend (map vkey vs)
-  | VTouch => OpTouch
-  end.
 
 Definition go_start (init : list val + Z) : res (go val) :=
   match init with
   | inl l => M_go_init val_eqb (map canon l)
   | inr n => Ok (M_go_auto VInt (Z.to_nat n))
-  end.
-
-Definition start_labels (init : list val + Z) : list val :=
-  match init with
-  | inl l => map canon l
-  | inr n => map VInt (iota (Z.to_nat n))
   end.
 
 (* observed: per-op outcome (Ok tt / Err class) and the final observation *)
@@ -108,104 +45,10 @@ Definition chk_M_go init (ops : list vop) probes (outs : list (res unit)) (obser
             list_eqb res_unit_eqb rs outs &&
             obs_eqb (M_go_observe val_eqb vto_Z g' (map vkey probes)) (obs_canon observed)
   end.
-
-Definition chk_S_go init (ops : list vop) probes (outs : list (res unit)) (observed : vobs) : bool :=
-  let '(l', rs) := S_go_run val_eqb (start_labels init) (map vop_op ops) in
-  list_eqb Bool.eqb rs (map is_ok outs) &&
-  obs_eqb (S_observe val_eqb l' (map vkey probes)) (obs_canon observed).
-
-(* ---- derived indices: the implementation's derived index is observed in full and compared with the
-   specification index over the labels the derivation must produce (S_select / S_drop / S_roll ...) ---- *)
-Definition chk_S_derived (expect : res (list val)) probes (observed : res vobs) : bool :=
-  match expect with
-  | Err e => match observed with Err _ => true | Ok _ => false end   (* a malformed key must be refused; C02 does not fix the class *)
-  | Ok l => chk_S_index l probes observed
-  end.
 Definition chk_M_derived (expect : res (list val)) probes (observed : res vobs) : bool :=
   match expect with
   | Err e => match observed with Err e' => String.eqb e e' | Ok _ => false end
   | Ok l => chk_M_index l probes observed
-  end.
-
-Fixpoint opt_all {A} (l : list (option A)) : option (list A) :=
-  match l with
-  | [] => Some []
-  | Some a :: t => match opt_all t with Some r => Some (a :: r) | None => None end
-  | None :: _ => None
-  end.
-
-(* positions as NumPy takes them: negative wraps once, otherwise IndexError *)
-Definition norm_positions (n : Z) (ps : list Z) : res (list Z) :=
-  match opt_all (map (fun p => norm_index p n) ps) with Some r => Ok r | None => Err "IndexError" end.
-
-Definition vS_iloc_list (labels : list val) (ps : list Z) : res (list val) :=
-  match norm_positions (zlen labels) ps with
-  | Err e => Err e
-  | Ok qs => match S_select (map canon labels) qs with Some l => Ok l | None => Err "IndexError" end
-  end.
-
-Definition vS_iloc_slice (labels : list val) (s : slice) : res (list val) :=
-  match positions s (zlen labels) with
-  | None => Err "ValueError"
-  | Some qs => match S_select (map canon labels) qs with Some l => Ok l | None => Err "IndexError" end
-  end.
-
-Fixpoint mask_positions (mask : list bool) (i : Z) : list Z :=
-  match mask with
-  | [] => []
-  | b :: m => if b then i :: mask_positions m (i + 1) else mask_positions m (i + 1)
-  end.
-
-Definition vS_iloc_mask (labels : list val) (mask : list bool) : res (list val) :=
-  if negb (Nat.eqb (length mask) (length labels)) then Err "IndexError"
-  else match S_select (map canon labels) (mask_positions mask 0) with Some l => Ok l | None => Err "IndexError" end.
-
-Definition vS_loc_list (labels keys : list val) : res (list val) :=
-  match S_lookup_list val_eqb (map canon labels) (map vkey keys) with
-  | Err e => Err e
-  | Ok qs => match S_select (map canon labels) qs with Some l => Ok l | None => Err "IndexError" end
-  end.
-
-Definition vS_drop_iloc (labels : list val) (ps : list Z) : res (list val) :=
-  match norm_positions (zlen labels) ps with
-  | Err e => Err e
-  | Ok qs => Ok (S_drop (map canon labels) qs)
-  end.
-
-Definition vS_drop_loc (labels keys : list val) : res (list val) :=
-  match S_lookup_list val_eqb (map canon labels) (map vkey keys) with
-  | Err e => Err e
-  | Ok qs => Ok (S_drop (map canon labels) qs)
-  end.
-
-Definition vS_roll (labels : list val) (shift : Z) : res (list val) := Ok (S_roll (map canon labels) shift).
-
-(* relabel with a finite mapping (dict): labels not in the mapping are kept *)
-Fixpoint vassoc (x : val) (m : list (val * val)) : option val :=
-  match m with [] => None | (a, b) :: m' => if val_eqb x (canon a) then Some (canon b) else vassoc x m' end.
-Definition vS_relabel (labels : list val) (m : list (val * val)) : res (list val) :=
-  Ok (map (fun x => match vassoc x m with Some y => y | None => x end) (map canon labels)).
-
-(* sort of integer labels *)
-Definition vint (v : val) : Z := match v with VInt z => z | _ => 0 end.
-Fixpoint zinsert (x : Z) (l : list Z) : list Z :=
-  match l with [] => [x] | y :: ys => if x <=? y then x :: l else y :: zinsert x ys end.
-Definition zsort (l : list Z) : list Z := fold_right zinsert [] l.
-Definition vS_sort_int (labels : list val) (ascending : bool) : res (list val) :=
-  let s := zsort (map vint (map canon labels)) in Ok (map VInt (if ascending then s else rev s)).
-
-(* set operations: the property (C02) fixes that the result is an index holding exactly the set;
-   the order of the result is C06's business *)
-Definition subsetb (a b : list val) : bool := forallb (fun x => memb val_eqb x b) a.
-Definition same_set (a b : list val) : bool := subsetb a b && subsetb b a.
-Definition vset_union (a b : list val) := map canon a ++ map canon b.
-Definition vset_inter (a b : list val) := filter (fun x => memb val_eqb x (map canon b)) (map canon a).
-Definition vset_diff (a b : list val) := filter (fun x => negb (memb val_eqb x (map canon b))) (map canon a).
-
-Definition chk_S_setop (expect : list val) probes (observed : res vobs) : bool :=
-  match observed with
-  | Err _ => false
-  | Ok o => chk_S_index (o_values o) probes observed && same_set (map canon (o_values o)) expect
   end.
 
 (* oracle sweep: the real AutoMap against am_build / am_get *)
